@@ -288,6 +288,7 @@ def qres(r):
 class Run:
     def __init__(self, ck):
         self.ck = ck
+        self.rng = random.Random(ck.seed + 1)
         self.cases = []       # (term, desc, explain) explain: None | 'float-boundary'
         self.fails = []       # (key, desc, replay)
         self.failed_inputs = set()
@@ -389,8 +390,14 @@ class Run:
         explained by a float boundary"""
         q0 = R.mk(m0, it0)
         nm = nominal(m0)
-        dimless = not R.dims(q0._units)
-        rootless = not R.root(q0._units)[1]
+        try:
+            dimless = not R.dims(q0._units)
+            rootless = not R.root(q0._units)[1]
+        except Exception as e:  # noqa: BLE001
+            if range_exhausted(e):
+                self.ck.count("float-range-exhausted")
+                return None
+            raise
         fixed = rootless or special(nm) or nm == 0
         if res[0] == "err":
             e = res[1]
@@ -452,13 +459,21 @@ class Run:
         return "float-boundary" if near else None
 
     # -------------------------------------------------------------- one quantity, every helper
-    def exercise(self, R, m, items, tag, with_model, base_k=True):
+    def exercise(self, R, m, items, tag, with_model, base_k=True, only_compact=False, twin_k=1.0):
+        try:
+            self._exercise(R, m, items, tag, with_model, base_k, only_compact, twin_k)
+        except Exception as e:  # noqa: BLE001
+            if not range_exhausted(e):
+                raise
+            self.ck.count("float-range-exhausted")
+
+    def _exercise(self, R, m, items, tag, with_model, base_k=True, only_compact=False, twin_k=1.0):
         ck = self.ck
         exact = R.nit is F and not is_ufloat(m) and not isinstance(nominal(m), float)
         rp0 = {"registry": {"non_int_type": R.nit.__name__, **R.kw}, "quantity": jq(m, items)}
         rqt = coq_rq(m, items) if with_model else None
         key0 = (tag, repr(m), tuple(items))
-        for what in ("root_units", "base_units", "reduced_units"):
+        for what in (() if only_compact else ("root_units", "base_units", "reduced_units")):
             rp = dict(rp0, helper=what)
             q = R.mk(m, items)
             fun = qres(call(getattr(q, "to_" + what)))
@@ -494,10 +509,12 @@ class Run:
                         continue
                     t = coq_uc(dict(items_of(tgt[1])))
                     self.add(f"KBase {rqt} {t} {coq_hres(fun, mex)}", dict(rp, k="to"), key0 + ("KBase",))
-                    self.add(f"KIBase {rqt} {t} {coq_hres(ito, mex)}", dict(rp, k="ito"), key0 + ("KIBase",))
+                    if self.rng.random() < twin_k:
+                        self.add(f"KIBase {rqt} {t} {coq_hres(ito, mex)}", dict(rp, k="ito"), key0 + ("KIBase",))
                 else:
                     self.add(f"K{kn} {rqt} {coq_hres(fun, mex)}", dict(rp, k="to"), key0 + ("K" + kn,))
-                    self.add(f"KI{kn} {rqt} {coq_hres(ito, mex)}", dict(rp, k="ito"), key0 + ("KI" + kn,))
+                    if self.rng.random() < twin_k:
+                        self.add(f"KI{kn} {rqt} {coq_hres(ito, mex)}", dict(rp, k="ito"), key0 + ("KI" + kn,))
         # to_compact (no in-place twin exists)
         rp = dict(rp0, helper="compact")
         q = R.mk(m, items)
@@ -611,14 +628,14 @@ def run(ck):
     for i in range(NQ):
         items = rnd_items(rng, ratl)
         m = rnd_mag_exact(rng)
-        run_.exercise(UF, m, items, "exact", with_model=True)
+        run_.exercise(UF, m, items, "exact", with_model=True, twin_k=1.0 if thorough else 0.4)
     # single units, every rational unit once (to_compact / root on the whole registry)
-    for n in (ratl if thorough else rng.sample(ratl, 120)):
-        run_.exercise(UF, rnd_mag_exact(rng), [(n, F(rng.choice([1, 1, -1, 2])))], "exact1", with_model=True)
+    for n in (ratl if thorough else rng.sample(ratl, 80)):
+        run_.exercise(UF, rnd_mag_exact(rng), [(n, F(rng.choice([1, 1, -1, 2])))], "exact1", with_model=True, twin_k=1.0 if thorough else 0.3)
     # every decimal power: the prefix table as to_compact sees it
     for k in range(-36, 37):
         for e in (1, -1, 2):
-            run_.exercise(UF, F(10) ** k * rng.choice([1, 5, F(1001, 1000)]), [("meter", F(e))], "table", with_model=True, base_k=False)
+            run_.exercise(UF, F(10) ** k * rng.choice([1, 5, F(1001, 1000)]), [("meter", F(e))], "table", with_model=True, base_k=False, only_compact=True)
 
     # ---------------------------------------------------------------- 2. float registry: oracles; model for to_compact
     for i in range(NQ):
@@ -628,7 +645,7 @@ def run(ck):
         run_.exercise(Uf, m, items, "float", with_model=False)
     for i in range(NQ * 2):
         n = rng.choice(["meter", "second", "gram", "watt", "byte", "newton", "liter", "ampere", "pascal", "mole"] + rng.sample(ratl, 3))
-        if rng.random() < 0.3:
+        if rng.random() < 0.3 and _PLAIN.get(n, True):
             n = rng.choice(DEC_PREFIXES) + n
         items = [(n, F(rng.choice([1, 1, 1, -1, 2, -2, 3])))]
         if rng.random() < 0.3:
@@ -673,9 +690,9 @@ def run(ck):
                    [("kilogram", F(1)), ("second", F(-2))], [("steradian", F(1)), ("meter", F(1))]]
     for it in fixed_units:
         for m in [1500.0, 0.0, -0.0, 0, float("nan"), float("inf"), float("-inf"), 2.5e-7]:
-            run_.exercise(Uf, m, it, "fixed", with_model=True)
+            run_.exercise(Uf, m, it, "fixed", with_model=True, twin_k=0.3)
         for m in [F(1500), F(0), 0, F(3, 10 ** 7)]:
-            run_.exercise(UF, m, it, "fixedF", with_model=True)
+            run_.exercise(UF, m, it, "fixedF", with_model=True, twin_k=0.3)
     try:
         from uncertainties import ufloat
         for i in range(200 if thorough else 40):
@@ -942,6 +959,9 @@ def run(ck):
 
     # ---------------------------------------------------------------- differ inside Coq
     cases = run_.cases
+    import os
+    if os.environ.get("C15_DUMP"):
+        open(os.environ["C15_DUMP"], "w").write("\n".join(c for c, _, _ in cases))
     ck.extra["t_pint_s"] = round(time.time() - t0, 1)
     t0 = time.time()
     bad = ck.coq_mismatches("c15", HEADER, [c for c, _, _ in cases], "ok") if built else None
@@ -1008,5 +1028,9 @@ def replay(ck, path):
     if h == "preferred":
         args = [[R.u.Unit(mkc(R.u, {t.split("**")[0]: F(t.split("**")[1]) for t in s.split(" * ")})) for s in rp.get("preferred", [])]]
     r = call(getattr(q, name), *args)
-    print("now:", (r[1]._magnitude, dict(r[1]._units)) if r[0] == "ok" else f"raises {type(r[1]).__name__}: {r[1]}")
+    print(f"now {name}:", (r[1]._magnitude, dict(r[1]._units)) if r[0] == "ok" else f"raises {type(r[1]).__name__}: {r[1]}")
+    if hasattr(q, "i" + name):
+        q2 = R.mk(m, items)
+        r = call(getattr(q2, "i" + name), *args)
+        print(f"now i{name}:", (q2._magnitude, dict(q2._units)) if r[0] == "ok" else f"raises {type(r[1]).__name__}: {r[1]}")
     return 0
